@@ -600,6 +600,39 @@ def sel_walk(tid, kinds, scripts, cut, partial, rng, nsteps=30, policy=None):
     return w, lines
 
 
+def late_handshake_case(tid, who):
+    """A party gives up (its deadline strikes, its contenders are cancelled: the transport has been told to close, connectionLost
+    has not come yet) and the peer's handshake arrives in just that gap - on a transport whose close is asynchronous (TLS, Tor, a
+    wrapping transport), which still hands over what arrives in between.  A cancelled contender must stay cancelled: no `go` after
+    connect() has failed, no winner nobody is told about."""
+    kinds = {"a": "s2r"}
+    w = SelWorld(kinds, {}, random.Random(tid))
+    w.do(("Start", "S", "-"))
+    w.do(("Start", "R", "-"))
+    w.do(("Established", "a", "-"))
+    if who == "S":
+        w.do(("Deliver", "a", "R"))          # the sender's handshake reaches the receiver, which answers
+    w.do(("Deadline", who, "-"))
+    link, frm = w._src("a", who)
+    t = link.ends[1 - frm]
+    forced = 0
+    while link.ends[frm].out and link.alive[1 - frm] and t.connected and forced < 3:
+        unit = link.ends[frm].out.pop(0)
+        forced += 1
+        try:
+            reactor.call_protocol(t.protocol.dataReceived, unit)
+        except sim._ProtocolRaised:
+            break
+        w.got["a"][who].append(classify(unit))
+    w.schedule.append(["ForcedDeliverInClosingGap", "a", who, forced])
+    for _ in range(200):
+        acts = [a for a in sel_enabled(w, False, False, faults=False) if a[0] != "LateDial"]
+        if not acts:
+            break
+        w.do(acts[0])
+    return w, forced
+
+
 def crowd_policy(w, acts, n):
     """every idle stranger gets in first, then both parties start and the honest contender arrives"""
     for want in ("Established",):
@@ -734,6 +767,22 @@ def run(prop, tier):
                     ndrift += 1
                     if len(cov["drift"]) < 8:
                         cov["drift"].append(dict(drift, tid=tid, config=name, origin=origin, schedule=w.schedule[:drift["step"] + 1]))
+        # family: the peer's handshake arriving between a cancelled contender's loseConnection() and its connectionLost()
+        ngap = 0
+        for who in ("S", "R"):
+            for k in range(2):
+                tid += 1
+                try:
+                    w, forced = late_handshake_case(tid, who)
+                except Exception as e:
+                    cov["walk_errors"] = cov.get("walk_errors", []) + [("late-handshake: %r" % (e,))[:160]]
+                    continue
+                rec = w.record(tid)
+                rec["origin"], rec["config"] = "family:late-handshake", "closing_gap"
+                records.append(rec)
+                runs[tid] = w
+                ngap += int(forced > 0)
+        cov["late_handshake_cases_with_a_unit_in_the_gap"] = ngap
         # code -> spec: seeded walks over the real parties, validated by TLC against Transit.tla
         wrng = random.Random(seed * 7919 + 7)
         tv = {"walks": 0, "accepted": 0, "rejected": []}
